@@ -5,7 +5,7 @@ cd "$(dirname "$0")"
 mkdir -p _build
 cp extracted/*.ml extracted/*.mli driver.ml sldriver.ml onedriver.ml exprdriver.ml _build/
 cd _build
-MODS="Datatypes Bool BinNums Nat PeanoNat BinPos BinNat Ascii String List Scope Engine SplitLine Text Reader Detect Include One Expr"
+MODS="Datatypes Bool BinNums Nat PeanoNat BinPos BinNat Ascii String List Scope Engine SplitLine Text Reader Detect Include One Expr ReplaceMap"
 ALL=""
 for m in $MODS; do if [ -f $m.ml ]; then ALL="$ALL $m.mli $m.ml"; fi; done
 ocamlfind ocamlopt -w -a -o driver $ALL driver.ml
